@@ -908,7 +908,7 @@ func report(bin string, def *checkDef, check, tier string, v *Result) string {
 		// confirm in a fresh process
 		c := runTape(bin, check, tier, v.Seed, v.Tape, true, timeout)
 		confirmed := sameViolation(c, oracle)
-		if !confirmed && oracle != "livelock" {
+		if !confirmed && oracle != "livelock" && oracle != "lock-deadlock" {
 			// second and third opinion: the seed itself, in fresh processes
 			for k := 0; k < 2 && !confirmed; k++ {
 				w := startWorker(bin)
